@@ -240,10 +240,17 @@ func (q *Q) recPayment(p etypes.Payment) (Coord, string, M, error) {
 		"rate": rate, "balance": bal, "withdrawn": wd}, nil
 }
 
+// A returned object that cannot be projected (an empty record, an unknown address) is recorded as such: it then
+// fails the judgement (it equals no stored record) instead of stopping the harness.
+func badJoin(err error) M { return M{"id": "?unprojectable: " + err.Error(), "rec": M{}, "dg": ""} }
+func badItem(err error) M {
+	return M{"c": Coord{A: "?unprojectable: " + err.Error()}, "rec": M{}, "dg": ""}
+}
+
 func (q *Q) joinAccount(a etypes.Account) (M, error) {
 	_, key, rec, err := q.recAccount(a)
 	if err != nil {
-		return nil, err
+		return badJoin(err), nil
 	}
 	return M{"id": key, "rec": rec, "dg": itemDg(q.W.App.AppCodec(), &a)}, nil
 }
@@ -251,7 +258,7 @@ func (q *Q) joinAccount(a etypes.Account) (M, error) {
 func (q *Q) joinPayment(p etypes.Payment) (M, error) {
 	_, key, rec, err := q.recPayment(p)
 	if err != nil {
-		return nil, err
+		return badJoin(err), nil
 	}
 	return M{"id": key, "rec": rec, "dg": itemDg(q.W.App.AppCodec(), &p)}, nil
 }
@@ -260,13 +267,14 @@ func (q *Q) itemDeployment(r dtypes.QueryDeploymentResponse) (M, error) {
 	cdc := q.W.App.AppCodec()
 	c, rec, err := q.recDeployment(r.Deployment)
 	if err != nil {
-		return nil, err
+		return badItem(err), nil
 	}
 	groups := []M{}
 	for i := range r.Groups {
 		gc, grec, err := q.recGroup(r.Groups[i])
 		if err != nil {
-			return nil, err
+			groups = append(groups, badItem(err))
+			continue
 		}
 		groups = append(groups, M{"c": gc, "rec": grec, "dg": itemDg(cdc, &r.Groups[i])})
 	}
@@ -280,7 +288,7 @@ func (q *Q) itemDeployment(r dtypes.QueryDeploymentResponse) (M, error) {
 func (q *Q) itemBid(r mtypes.QueryBidResponse) (M, error) {
 	c, rec, err := q.recBid(r.Bid)
 	if err != nil {
-		return nil, err
+		return badItem(err), nil
 	}
 	acct, err := q.joinAccount(r.EscrowAccount)
 	if err != nil {
@@ -292,7 +300,7 @@ func (q *Q) itemBid(r mtypes.QueryBidResponse) (M, error) {
 func (q *Q) itemLease(r mtypes.QueryLeaseResponse) (M, error) {
 	c, rec, err := q.recLease(r.Lease)
 	if err != nil {
-		return nil, err
+		return badItem(err), nil
 	}
 	pay, err := q.joinPayment(r.EscrowPayment)
 	if err != nil {
@@ -304,7 +312,7 @@ func (q *Q) itemLease(r mtypes.QueryLeaseResponse) (M, error) {
 func (q *Q) itemProvider(p ptypes.Provider) (M, error) {
 	n, err := q.W.Name(p.Owner)
 	if err != nil {
-		return nil, err
+		return badItem(err), nil
 	}
 	return M{"c": Coord{n, 0, 0, 0, ""}, "rec": M{"attrs": chainh.AttrMapOf(p.Attributes)}, "dg": itemDg(q.W.App.AppCodec(), &p)}, nil
 }
@@ -313,7 +321,7 @@ func (q *Q) itemAttest(p audtypes.Provider) (M, error) {
 	pn, e1 := q.W.Name(p.Owner)
 	an, e2 := q.W.Name(p.Auditor)
 	if e1 != nil || e2 != nil {
-		return nil, fmt.Errorf("unprojectable attestation %s/%s", p.Auditor, p.Owner)
+		return badItem(fmt.Errorf("attestation %s/%s", p.Auditor, p.Owner)), nil
 	}
 	return M{"c": Coord{pn, 0, 0, 0, an}, "rec": chainh.AttrMapOf(p.Attributes), "dg": itemDg(q.W.App.AppCodec(), &p)}, nil
 }
@@ -399,7 +407,8 @@ func (q *Q) List(ctx sdk.Context, s *scan, kind string, f Filter, pg Pg, rawKey 
 		for i := range res.Orders {
 			c, rec, err := q.recOrder(res.Orders[i])
 			if err != nil {
-				return r, err
+				r.Items = append(r.Items, badItem(err))
+				continue
 			}
 			r.Items = append(r.Items, M{"c": c, "rec": rec, "dg": itemDg(q.W.App.AppCodec(), &res.Orders[i])})
 		}
@@ -471,8 +480,8 @@ func (q *Q) List(ctx sdk.Context, s *scan, kind string, f Filter, pg Pg, rawKey 
 		q.W.App.VerifKeepers().Escrow.WithAccounts(ctx, func(a etypes.Account) bool {
 			c, _, rec, err := q.recAccount(a)
 			if err != nil {
-				perr = err
-				return true
+				r.Items = append(r.Items, badItem(err))
+				return false
 			}
 			r.Items = append(r.Items, M{"c": c, "rec": rec, "dg": itemDg(q.W.App.AppCodec(), &a)})
 			return false
@@ -486,8 +495,8 @@ func (q *Q) List(ctx sdk.Context, s *scan, kind string, f Filter, pg Pg, rawKey 
 		q.W.App.VerifKeepers().Escrow.WithPayments(ctx, func(p etypes.Payment) bool {
 			c, _, rec, err := q.recPayment(p)
 			if err != nil {
-				perr = err
-				return true
+				r.Items = append(r.Items, badItem(err))
+				return false
 			}
 			r.Items = append(r.Items, M{"c": c, "rec": rec, "dg": itemDg(q.W.App.AppCodec(), &p)})
 			return false
@@ -547,7 +556,7 @@ func (q *Q) Get(ctx sdk.Context, kind string, c Coord) (Resp, error) {
 	}
 	one := func(it M, err error) (Resp, error) {
 		if err != nil {
-			return r, err
+			it = badItem(err)
 		}
 		r.Items = append(r.Items, it)
 		return r, nil
